@@ -15,9 +15,10 @@ def run(tier):
                 continue
             conds.append(Cond("h_parse_str.py", "terminates", to, twin="reach_states", path_timeout=to / 2,
                               env={"H_SPEC": spec, "H_LEN": str(n), "H_MODE": mode}))
-    for spec in ("nullplus", "nullnest"):
-        conds.append(Cond("h_parse_str.py", "terminates", to, twin="reach_states", path_timeout=to / 2,
-                          env={"H_SPEC": spec, "H_LEN": "2" if tier == "quick" else "4"}))
+    for spec in ("nullplus", "nullnest", "nullseq"):
+        for mode in ("complete", "incomplete"):
+            conds.append(Cond("h_parse_str.py", "terminates", to, twin="reach_states" if mode == "complete" else None, path_timeout=to / 2,
+                              env={"H_SPEC": spec, "H_LEN": "2" if tier == "quick" else "4", "H_MODE": mode}))
     run.run_conditions(conds, conformance_harnesses=["h_parse_str.py"])
     run.encoded = PARSER_FUNCS
     run.extra["source_sha256_16"] = source_fingerprint(PARSER_FILES)
